@@ -67,6 +67,18 @@ fn main() {
         selftest();
         return;
     }
+    if args.first().map(|s| s.as_str()) == Some("selftest-hang") {
+        // exercises the watchdog: run with VERIF_WATCHDOG=3, expect exit 2
+        use proptest::prelude::*;
+        fn strat(_: Tier) -> BoxedStrategy<u32> { (0u32..2000).boxed() }
+        fn run(c: &u32, _: &mut engine::Obs) -> engine::CheckResult {
+            if *c == 1234 { loop { std::thread::sleep(std::time::Duration::from_millis(50)); } }
+            Ok(())
+        }
+        let p = Property { id: "SELFTEST", rule: "", assumptions: vec![], subs: vec![
+            engine::PropSub { name: "hang", strategy: strat, cases: |_| 1_000_000, run, floors: &[] }.boxed()] };
+        std::process::exit(engine::run_property(p, Tier::Quick).exit);
+    }
     if args.len() < 2 {
         eprintln!("usage: vcheck <id> quick|thorough | vcheck <id> --replay <file>");
         std::process::exit(2);
